@@ -232,10 +232,11 @@ def parts(tier):
                  bounds={'requests': 2, 'kinds': ['str', 'gen-bytes', 'file', 'none'], 'sizes': [0, 5], 'statuses': [200, 204, 500]}, encoded=ENC + [WH.HTTP._on_stream], budget_s=85),
         ]
     return [Part('responses', make_harness(two_requests=False), bounds={'requests': 1}, encoded=ENC, budget_s=900),
-            Part('partial-sends', make_harness(two_requests=True, kinds=['str', 'list', 'gen-bytes', 'gen-empty-items', 'file', 'file-short-reads'], sizes=[5, 4097], statuses=[200, 500], partial_sends=4),
-                 bounds={'requests': '1-2', 'sizes': [5, 4097], 'transport': 'real TCPServer component; each of the first 4 send() calls takes all / half / one byte'},
+            Part('partial-sends', make_harness(two_requests=True, kinds=['str', 'gen-bytes', 'file', 'file-short-reads'], sizes=[5, 4097], statuses=[200], partial_sends=3),
+                 bounds={'requests': '1-2', 'kinds': ['str', 'gen-bytes', 'file', 'file-short-reads'], 'sizes': [5, 4097], 'transport': 'real TCPServer component; each of the first 3 send() calls takes all / half / one byte'},
                  encoded=ENC + [WH.HTTP._on_stream, SK.Server.write, SK.Server._on_write, SK.Server._write], budget_s=1800),
-            Part('keep-alive-pairs', make_harness(two_requests=True, sizes=[0, 5, 4097]), bounds={'requests': 2, 'sizes': [0, 5, 4097]}, encoded=ENC + [WH.HTTP._on_stream], budget_s=3000)]
+            Part('keep-alive-pairs', make_harness(two_requests=True, kinds=['str', 'gen-bytes', 'gen-empty-items', 'file', 'file-short-reads', 'none'], sizes=[0, 5], statuses=[200, 204, 500]),
+                 bounds={'requests': 2, 'kinds': ['str', 'gen-bytes', 'gen-empty-items', 'file', 'file-short-reads', 'none'], 'sizes': [0, 5], 'statuses': [200, 204, 500]}, encoded=ENC + [WH.HTTP._on_stream], budget_s=3000)]
 
 
 if __name__ == '__main__':
